@@ -77,6 +77,23 @@ Theorem c01_completes : forall handler g evs r c s,
 Proof. exact completes. Qed.
 Print Assumptions c01_completes.
 
+(* completion, as a statement about whole runs: let the environment finish its work after ANY
+   admissible schedule ([drain_events]: for every request still running, its server handles it and
+   its transport delivers the response; no caller does anything).  Then every request that was
+   started, not cancelled and whose connection the peer did not break has its response, and it is
+   the handler's answer to its own wire request at its own origin. *)
+Theorem c01_completes_after_drain : forall handler g evs,
+  sched_ok handler g evs = true ->
+  let st := run_state handler g evs in
+  let st' := run_from handler g st (drain_events g st) in
+  Inv handler g st' /\
+  forall q c s, In q (g_reqs g) -> st_stat st (q_id q) = SRunning c s -> c_dead (st_conn st c) = false ->
+    exists c' p, st_stat st' (q_id q) = SDone c' p /\
+      exists q' w, req_of g (q_id q) = Some q' /\ wire_request (g_ua g) (proto_of g c') q' = Some w
+                   /\ origin_of g c' = q_origin q' /\ p = handler (q_origin q') w.
+Proof. exact drain_completes. Qed.
+Print Assumptions c01_completes_after_drain.
+
 (* completion, safety half: no step of anybody takes a running request out of the running state
    except: its response arrives, the caller cancels THIS request, or the peer breaks ITS
    connection.  In particular cancelling other requests never fails it. *)
